@@ -522,6 +522,14 @@ func inPoolGet(ex *Exec, fn *ssa.Function, args []Value) (Value, bool) {
 	return IfaceV{}, true
 }
 
+// runtime.Gosched in thread mode: the spinning thread is not eligible again until another thread has stepped
+func inGosched(ex *Exec, fn *ssa.Function, args []Value) (Value, bool) {
+	if ex.threads != nil && ex.threads.running {
+		ex.threads.yieldPoint(ex, "wait", true)
+	}
+	return nil, true
+}
+
 func inIdentity(ex *Exec, fn *ssa.Function, args []Value) (Value, bool) { return args[0], true }
 
 func inNoop(ex *Exec, fn *ssa.Function, args []Value) (Value, bool) {
@@ -879,7 +887,7 @@ var intrinsicTable = map[string]intrinsicFn{
 	"internal/abi.NoEscape":              inIdentity,
 	"internal/bytealg.MakeNoZero":        inMakeNoZero,
 	"(*strings.Builder).copyCheck":       inNoop,
-	"runtime.Gosched":                    inNoop,
+	"runtime.Gosched":                    inGosched,
 	"runtime.KeepAlive":                  inNoop,
 	"internal/race.Enabled":              inNoop,
 	"internal/race.Acquire":              inNoop,
